@@ -71,6 +71,8 @@ def run(R: vlib.Run):
                   "hand model of the read_plan loop body (Model/Plan.v) and of FileReader (Model/Stream.v), tied by the correspondence run",
                   "composed theorems: byte-wide samples (plan_sound) and packed depths 1/2/4 (plan_sound_packed = plan o C03 unpack); 16/32-bit: C01_plan_sound_items (plan_sound at nchans*itemsize bytes per sample), byte-level correspondence plus value oracle"]
     R.assume += ["files contain a whole number of samples", "the OS returns all available bytes on a regular-file read"]
+    if "VERIF_CASE_TIMEOUT" not in os.environ:
+        R.case_budget = 120.0 if R.tier == "quick" else 600.0   # every implementation call here is a tiny read, ticked individually
     R.prove("Props/C01.v")
     R.need(["Model/Plan.vo"])
     rng = R.rng
@@ -98,7 +100,7 @@ def run(R: vlib.Run):
                 for nsamps in range(1, N - start + 1):
                     for gulp in range(1, nsamps + 2):
                         for skipback in range(0, min(gulp, nsamps) + 1):
-                            tr = iterate(fil, gulp, start, nsamps, skipback)
+                            R.tick({'nbits': nbits, 'splits': splits, 'gulp': gulp, 'start': start, 'nsamps': nsamps, 'skipback': skipback}); tr = iterate(fil, gulp, start, nsamps, skipback)
                             R.case((nbits, tuple(splits), gulp, start, nsamps, skipback), nontrivial=(len(tr[1]) >= 2 or tr[0] != "ok"),
                                    regime=("reject" if skipback >= min(gulp, nsamps) else "half" if 2 * skipback <= min(gulp, nsamps) else "large-skipback"),
                                    sample={"nbits": nbits, "splits": splits, "gulp": gulp, "start": start, "nsamps": nsamps, "skipback": skipback,
@@ -128,7 +130,7 @@ def run(R: vlib.Run):
                 gulp = rng.choice([1, 2, 3, rng.randrange(1, nsamps + 3), nsamps, nsamps + 5])
                 geff = min(gulp, nsamps)
                 skipback = rng.choice([0, 0, geff // 2, rng.randrange(0, geff + 1), max(0, geff - 1), -(geff // 3)])
-                tr = iterate(fil, gulp, start, nsamps, skipback)
+                R.tick({'nbits': nbits, 'splits': splits, 'gulp': gulp, 'start': start, 'nsamps': nsamps, 'skipback': skipback}); tr = iterate(fil, gulp, start, nsamps, skipback)
                 R.case((nbits, tuple(splits), N, gulp, start, nsamps, skipback), nontrivial=(len(tr[1]) >= 2 or tr[0] != "ok"), regime="random")
                 check_case(R, x, nch, N, nbits, splits, gulp, start, nsamps, skipback, tr)
                 if nbits == 8 and N <= 24:
